@@ -29,7 +29,9 @@ CONSTANTS Ctx,        \* context names, strings
           Seeds, Cases(_), \* the script assignments to explore: UNION {Cases(s) : s \in Seeds}, each a function
                       \* Ctx -> Seq(1..Len(OpList)) (scripts as indices into OpList). Split in two levels
                       \* because TLC computes initial states in one thread: Init only picks a seed.
-          Policies    \* allowed reactions to assignment on a builtin type, see SetTypeAttr
+          Policies,   \* allowed reactions to assignment on a builtin type, see SetTypeAttr
+          Configs,    \* the ways the embedding API offers to configure a context, see ConfigSeq
+          ConfigDepth \* assignments with at most this many operations in total are explored under every configuration
 
 Mods     == {"math", "umod"}   \* math: implemented in Go; umod: Python source found on sys.path
 SrcMods  == {"umod"}           \* importing these runs a body that prints "body", once per context
@@ -60,11 +62,19 @@ Component(o) ==
     [] o \in {"MutateImplObject", "ReadImplObject"}     -> [name |-> "object in ModuleImpl.Globals (os.environ)", writer |-> "MutateImplObject"]
     [] o = "ReplLine"                                   -> [name |-> "vm.PrintExpr", writer |-> "ReplLine"]
 
+\* How the contexts of a case are created is part of the case (C08 quantifies over contexts however they
+\* were configured): "explicit" = ContextOpts with SysArgs and SysPaths given, "zero" = the zero value
+\* py.ContextOpts{} (nil SysArgs, nil SysPaths), "default" = py.DefaultContextOpts() (nil SysArgs).
+\* lazy = TRUE: a context is created when it takes its first step (so it may be created after another
+\* context has already written), FALSE: all contexts exist before the first step.
+\* Nothing a context observes may depend on either: Eff does not mention them.
+ConfigSeq == << "explicit", "zero", "default" >>
+
 VARIABLES seed, started,    \* Init picks a seed; the first step (Pick) picks the case and starts the contexts
-          script, policy,   \* the case: chosen by Pick, never changed afterwards
+          script, policy, config, lazy,  \* the case: chosen by Pick, never changed afterwards
           solo,             \* function of the case, computed by Pick: SoloOf(c, script[c], policy)
           ip, main, store, syspath, sysargv, builtins, replst, shared, obs, order
-vars == <<seed, started, script, policy, solo, ip, main, store, syspath, sysargv, builtins, replst, shared, obs, order>>
+vars == <<seed, started, script, policy, config, lazy, solo, ip, main, store, syspath, sysargv, builtins, replst, shared, obs, order>>
 
 None    == [has |-> FALSE, v |-> ""]
 Some(v) == [has |-> TRUE, v |-> v]
@@ -149,10 +159,21 @@ CurStep(c) == LET o == OpList[script[c][ip[c]]] IN
 
 UsesTypes(a) == \E c \in Ctx : \E i \in 1..Len(a[c]) : OpList[a[c][i]].op = "SetTypeAttr"
 
+\* the configuration classes matter where sys.path/sys.argv are built: every assignment in which two contexts
+\* touch them (and that is not longer than ConfigDepth) is explored under every configuration; the others
+\* rotate through the configurations
+UsesSys(s) == \E i \in 1..Len(s) : Component(OpList[s[i]].op).name = "sys.path/sys.argv"
+SysPair(a) == Cardinality({ c \in Ctx : UsesSys(a[c]) }) >= 2
+TotalOps(a) == FoldLeft(LAMBDA acc, c : FoldLeft(LAMBDA x, y : x + y, acc, a[c]), 0, SetToSeq(Ctx))
+TotalLen(a) == FoldLeft(LAMBDA acc, c : acc + Len(a[c]), 0, SetToSeq(Ctx))
+ConfigChoices(a) == IF SysPair(a) /\ TotalLen(a) <= ConfigDepth THEN Configs ELSE { ConfigSeq[(TotalOps(a) % 3) + 1] }
+
 Init == /\ seed \in Seeds
         /\ started = FALSE
         /\ script = [c \in Ctx |-> <<>>]
         /\ policy = "percontext"
+        /\ config = "explicit"
+        /\ lazy = FALSE
         /\ solo = [c \in Ctx |-> <<>>]
         /\ ip = [c \in Ctx |-> 1]
         /\ main = [c \in Ctx |-> Local0.main]
@@ -170,6 +191,8 @@ Pick == /\ ~started
         /\ started' = TRUE
         /\ \E a \in Cases(seed) :
              /\ script' = a
+             /\ lazy' = (TotalOps(a) % 2 = 1)
+             /\ \E cf \in ConfigChoices(a) : config' = cf
              /\ \E pol \in (IF UsesTypes(a) THEN Policies ELSE {"percontext"}) :
                   /\ policy' = pol
                   /\ solo' = [c \in Ctx |-> SoloOf(c, a[c], pol)]
@@ -190,7 +213,7 @@ Step(c) ==
      /\ shared' = IF Shared THEN [d \in Ctx |-> e.S] ELSE [shared EXCEPT ![c] = e.S]
      /\ obs' = [d \in Ctx |-> obs[d] \o (IF d = e.echoTo THEN <<e.echo>> ELSE <<>>)
                                      \o (IF d = c THEN e.out ELSE <<>>)]
-     /\ UNCHANGED <<seed, started, script, policy, solo>>
+     /\ UNCHANGED <<seed, started, script, policy, config, lazy, solo>>
 
 Next == Pick \/ \E c \in Ctx : Step(c)
 Spec == Init /\ [][Next]_vars
@@ -202,7 +225,7 @@ NonInterference == \A c \in Ctx : IsPrefixOf(obs[c], solo[c])
 FinalEqualsSolo == Final => \A c \in Ctx : obs[c] = solo[c]
 
 \* export of every terminal behaviour: the harness replays (script, order) on real contexts
-Emit == Final => PrintT(ToJson([script |-> script, order |-> order, obs |-> obs, policy |-> policy]))
+Emit == Final => PrintT(ToJson([script |-> script, order |-> order, obs |-> obs, policy |-> policy, config |-> config, lazy |-> lazy]))
 
 \* implementation-shaped run: print the operation at which a behaviour first leaves NonInterference
 LeakWitness ==
